@@ -35,6 +35,9 @@ CHECKS = {
  "C12": ("Exhaustive exploration of batch states: every ordered selection of 1..2 (quick) / 1..3 (thorough) rules files from a pool of eight that deliberately share variable and rule names x every ordered selection of 1..3 / 1..4 documents from six x eight batch modes (explicit arguments, directories walked with -a and with -m where mtimes realise the reverse order, payload lists; plain, structured json, junit); the result of every (rules, data) pair extracted from the batch output is compared with that pair validated alone and the batch exit code must be the failure code iff some pair fails; likewise every ordered suite of 1..3 / 1..4 test cases against each case alone.",
          "Trusted base: the per-pair extractors for the console table, structured JSON and JUnit. Rule names shared across rules files are merged by the structured report, so that comparison is on sets.",
          "exhaustive enumeration of ordered file selections x batch modes, differential oracle batch vs singleton runs"),
+ "C17": ("Exhaustive enumeration of every distribution of four top-level keys over the data file and 1..3 input-parameter files (data part possibly empty) in every order of the -i arguments, plus every overlapping variant (one key duplicated between any two sources, equal and different value), x five invocation modes (plain, structured, data on stdin, payload plain/structured); disjoint distributions must give exactly the verdicts and exit code of the pre-merged document (rules read data keys, parameter keys, both, keys-filters over the root and count(this.*)), overlapping ones an error exit with a message and no panic.",
+         "Trusted base: the report extractors; the pre-merged document evaluated by the same tool is the reference (differential).",
+         "exhaustive enumeration of key distributions x -i orders x overlap variants x modes, differential oracle against the pre-merged document"),
 }
 PENDING_REASON = "check under construction in this round (design in DESIGN.md section 5); not claimed until its quick tier runs clean on the unchanged tree"
 ALL = ["C%02d" % i for i in range(1, 20)]
